@@ -40,6 +40,8 @@ type Elem struct {
 	// AL: one field sized exactly at its documented limit (key | val | url | method):
 	// the reader may refuse it or return it unchanged (see Assumptions).
 	AL string `json:"al,omitempty"`
+	// NS: no standard header names (end-to-end responses: the server adds its own CSeq / Server).
+	NS bool `json:"ns,omitempty"`
 }
 
 // Stream is what one end writes.
@@ -221,8 +223,13 @@ func genURL(r *core.Rand, want int) string {
 		}
 	}
 	u := scheme + "://" + user + host + path + q
-	if _, err := base.ParseURL(u); err != nil {
-		return "rtsp://" + user + "10.1.2.3:8554/stream"
+	pu, err := base.ParseURL(u)
+	if err != nil {
+		u = "rtsp://" + user + "10.1.2.3:8554/stream"
+		pu, _ = base.ParseURL(u)
+	}
+	if want > 0 && len(urlNoUser(pu)) != want {
+		u = "rtsp://" + user + "10.1.2.3/" + genToken(r, pathChars, want-16, want-16)
 	}
 	return u
 }
